@@ -3,9 +3,10 @@ import Driver.Formats
 import Driver.Filter
 import Driver.Block
 import Driver.Snappy
+import Driver.IterStack
 open Lcdb Drv
 
-def handlers : List (List String → String) := [handleCore, handleFormats, handleFilter, handleBlock, handleSnappy]
+def handlers : List (List String → String) := [handleCore, handleFormats, handleFilter, handleBlock, handleSnappy, handleIterStack]
 
 def handle (line : String) : String :=
   let f := line.trimAscii.toString.splitOn " "
